@@ -114,6 +114,22 @@ theorem long_word_loop_refines (grow : Nat → Nat → Nat) (width : Nat) (word 
   rw [List.drop_zero] at a b
   exact ⟨a, b⟩
 
+/-- **The loop of `richtext.SoftwrapScanner.Scan` on the heap refines the value-level model
+`Model.Wrap.scanLoop`** (the model of conservation, width, hard-break and needless-split theorems): from any
+heap whose first `n0` arrays are those of `h0`, with `s.rest` a well-formed slice of one of those arrays and
+`s.token` full or fresh, for every fuel, `w`, width, segmentation function and growth policy, the heap-level loop
+runs out of fuel exactly when the model does, and otherwise the slices it leaves in `s.rest` / `s.token` denote the
+model's remaining cells and line.  All four exits (long word, does not fit, hard break, trailing space does not
+fit) and the iteration are covered.  With `scan_writes_only_fresh_arrays`: same values, and no write outside the
+arrays the `Scan` allocates — a rewrite that compacts into the caller's slice cannot satisfy both. -/
+theorem scan_loop_refines (grow : Nat → Nat → Nat) (o : List Cell → Nat × Bool) (width : Nat) (h0 : Heap) (n0 : Nat)
+    (hn0 : 0 < n0) (fuel : Nat) (h : Heap) (st : St) (w : Nat) (hn : n0 ≤ h.length)
+    (hfr : ∀ j, j < n0 → arrOf h j = arrOf h0 j) (hra : st.rest.arr < n0) (wr : WFS h0 st.rest)
+    (gt : Good n0 h st.token) (wt : WFS h st.token) :
+    ScanRel (scanLoopH grow o width fuel h st w)
+      (scanLoop (oracleOf o) () width fuel (read h0 st.rest) () (read h st.token) w) :=
+  scanLoopH_refines grow o width h0 n0 hn0 fuel h st w hn hfr hra wr gt wt
+
 /-- Non-vacuity: "a\nb" — the first `Scan` returns the line "a" in a new array, leaves `cells = "b"` as a
 sub-slice of the caller's array, and the caller's array is what it was. -/
 example :
